@@ -158,16 +158,6 @@ impl Model {
         }
     }
 
-    /// abstract control state, for coverage accounting
-    pub fn control(&self) -> String {
-        match self {
-            Model::Req(m) => format!("{:?}", m.abstract_key()),
-            Model::Resp(m) => format!("{:?}", m.abstract_key()),
-            Model::Hdr(m) => format!("{:?}", m.abstract_key()),
-            Model::Chunk(m) => format!("{:?}", m.abstract_key()),
-        }
-    }
-
     pub fn out(&self) -> ModelOut {
         let mut o = ModelOut {
             st: self.status(),
